@@ -28,7 +28,7 @@ Proof. exact rsa_tables_agree. Qed.
 Lemma gen_algorithm_tables : forall a, a < 256 -> tables_ok a = true.
 Proof. exact tables_agree. Qed.
 
-Lemma gen_keytag_rsamd5_branch : forall alg, in_names alg keytag_rsamd5_alg = (alg =? 1).
+Lemma gen_keytag_rsamd5_branch : forall alg, (alg =? keytag_rsamd5_alg_value) = (alg =? 1).
 Proof. exact in_names_rsamd5. Qed.
 
 (* the record types whose embedded names are folded: RFC 4034 6.2 as corrected by RFC 6840 5.1
